@@ -38,7 +38,7 @@ use std::ops::{
 };
 use std::path::{Path, PathBuf};
 use std::slice::Iter as SliceIter;
-use std::sync::{Mutex, RwLock};
+use std::sync::{Mutex, PoisonError, RwLock};
 use std::thread::ThreadId;
 use std::time::{Duration, Instant};
 
@@ -685,13 +685,13 @@ impl<T: MemSize + ?Sized> HeapSize for Box<T> {
 
 impl<T: MemSize> HeapSize for Mutex<T> {
     fn heap_size(&self) -> usize {
-        self.lock().unwrap().heap_size()
+        self.lock().unwrap_or_else(PoisonError::into_inner).heap_size()
     }
 }
 
 impl<T: MemSize> HeapSize for RwLock<T> {
     fn heap_size(&self) -> usize {
-        self.read().unwrap().heap_size()
+        self.read().unwrap_or_else(PoisonError::into_inner).heap_size()
     }
 }
 
